@@ -92,6 +92,12 @@ CHECKS["C13"] = dict(level="model_checking", design="5/C13, 4.8", text=_anz + "C
     note="ctrl-modified calls are outside the statement of C13", technique="TLA+ machine spec as oracle, diagnostic multiset comparison", engine="tlc+replay")
 CHECKS["C17"] = dict(level="exploration", design="5/C17, 4.11", text=_anz + "C17 verdict: symbols, diagnostics (with payload) and skeleton are identical across 3 layouts, equal up to the renaming for 2 renamings, a prefix for every top-level prefix, and identical when analysed twice.",
     note="metamorphic relations evaluated by the harness on model-generated programs", technique="model-generated programs + metamorphic comparison on the real analyser", engine="tlc+replay")
+CHECKS["C18"] = dict(level="model_checking", design="5/C18, 4.10",
+    text="IncludeSem.tla states textual inclusion with ordered path search; Includes.tla models the two phases of the code (parse_included_files building the vector of included files, "
+         "syntax_to_semantic consuming it with a cursor). TLC checks Includes |= IncludeSem for 7.4e5 arrangements (3 files x 2 directories present in none/one/both, nesting <= 3, absolute and "
+         "relative paths, with/without search list and QASM3_PATH, 1-2 include sites incl. stdgates.inc and includes below global scope) and prints each with the required observation; a stride "
+         "sample (thorough: all / every 2nd) is materialised in a private directory tree and the real analysis compared (marker stream, tree of tagged diagnostic lists, FileNotFound count).",
+    note="acyclic arrangements only; temp tree + env var handled inside the harness process", technique="TLC model check of include machine spec against textual-inclusion requirement + replay of arrangements on disk", engine="tlc+replay")
 NOT_YET = {}
 for i in range(1, 21):
     pid = f"C{i:02d}"
